@@ -577,7 +577,9 @@ pub(crate) struct LocalTimeType {
 impl LocalTimeType {
     /// Construct a local time type
     pub(super) fn new(ut_offset: i32, is_dst: bool, name: Option<&[u8]>) -> Result<Self, Error> {
-        if ut_offset == i32::MIN {
+        // The offset must fit a `FixedOffset` (strictly less than a day), or the lookups on this zone
+        // could not return it.
+        if ut_offset <= -SECONDS_PER_DAY as i32 || ut_offset >= SECONDS_PER_DAY as i32 {
             return Err(Error::LocalTimeType("invalid UTC offset"));
         }
 
@@ -591,7 +593,7 @@ impl LocalTimeType {
 
     /// Construct a local time type with the specified UTC offset in seconds
     pub(super) const fn with_offset(ut_offset: i32) -> Result<Self, Error> {
-        if ut_offset == i32::MIN {
+        if ut_offset <= -SECONDS_PER_DAY as i32 || ut_offset >= SECONDS_PER_DAY as i32 {
             return Err(Error::LocalTimeType("invalid UTC offset"));
         }
 
